@@ -119,6 +119,9 @@ func (e *Engine) Reach(roots []*ssa.Function, stop func(*ssa.Function) bool) map
 			continue
 		}
 		for _, ed := range n.Out {
+			if isGoSite(ed.Site) {
+				continue // a goroutine is a new root, not a callee
+			}
 			g := ed.Callee.Func
 			if !seen[g] {
 				seen[g] = true
@@ -127,6 +130,11 @@ func (e *Engine) Reach(roots []*ssa.Function, stop func(*ssa.Function) bool) map
 		}
 	}
 	return seen
+}
+
+func isGoSite(s ssa.CallInstruction) bool {
+	_, ok := s.(*ssa.Go)
+	return ok
 }
 
 // MayReach: the set of functions from which some function in targets is
@@ -148,6 +156,9 @@ func (e *Engine) MayReach(targets []*ssa.Function) map[*ssa.Function]bool {
 			continue
 		}
 		for _, ed := range n.In {
+			if isGoSite(ed.Site) {
+				continue
+			}
 			g := ed.Caller.Func
 			if !seen[g] {
 				seen[g] = true
